@@ -178,15 +178,16 @@ def _inner_patterns(op, consts):
     return [((op, V(0), V(1), V(2)), 3)]
 
 
-def f_rule_pairs(pairs, consts=K3, contexts=("stack",), chains=(0,)):
-    """outer(inner(..)) with every wiring of the inner result, other operand in {X, Y, Z, c}"""
+def f_rule_pairs(pairs, consts=K3, contexts=("stack",), chains=(0,), generic=(5,)):
+    """outer(inner(..)) with every wiring of the inner result, other operand in {X, Y, Z, c} (c: the rule-relevant
+    constants plus a generic one on which no rule fires, so that the pair rule itself is exercised)"""
     out = []
     for outer, inner in pairs:
         aro = _arity(outer)
         if aro in (None, 0):
             continue
         for ie, nv in _inner_patterns(inner, consts):
-            others = [V(0), V(1), V(2)] + list(consts)
+            others = [V(0), V(1), V(2)] + list(consts) + [c for c in generic if c not in consts]
             if aro == 1:
                 exprs = [(outer, ie)]
             elif aro == 2:
